@@ -19,7 +19,7 @@ import (
 // option member) must be bounded by a dominating guard or clamp.
 
 func c13Alloc(r *fw.Run, p *fw.Program, scope []*ssa.Function) {
-	ru := r.Rule("C13.alloc", "in code reachable from jq-callable Go functions, every make([]T, n) / Repeat count with a non-constant n is bounded: a proved finite upper bound at the site, or n is built only from len()/cap() of existing memory and bounded quantities (a size that is a free jq argument is an uncatchable makeslice panic)", 10)
+	ru := r.Rule("C13.alloc", "in code reachable from jq-callable Go functions, every make([]T, n) / Repeat count / Buffer.Grow size with a non-constant n is bounded: a proved finite upper bound at the site, or n is built only from len()/cap() of existing memory and bounded quantities (a size that is a free jq argument is an uncatchable makeslice panic)", 10)
 	for _, fn := range scope {
 		if fn.TypeParams().Len() > 0 && len(fn.TypeArgs()) == 0 {
 			continue
@@ -61,6 +61,11 @@ func c13Alloc(r *fw.Run, p *fw.Program, scope []*ssa.Function) {
 					switch cal.String() {
 					case "strings.Repeat", "bytes.Repeat":
 						check(x, x.Common().Args[1], "repeat")
+					case "(*bytes.Buffer).Grow", "(*strings.Builder).Grow":
+						// Grow(n) reserves n bytes at once: panics (bytes.ErrTooLarge / makeslice) or exhausts memory like make
+						check(x, x.Common().Args[1], "grow")
+					case "slices.Grow":
+						check(x, x.Common().Args[1], "grow")
 					}
 				}
 			}
